@@ -11,8 +11,10 @@ from typing import Any, Callable, Dict, List, Optional
 from . import REPO, VERIF_DIR
 from .explore import NPROC, Stats, Violation, digest, jsonable
 
-EVIDENCE_DIR = os.path.join(VERIF_DIR, "evidence")
-REPLAY_DIR = os.path.join(VERIF_DIR, "replays")
+# runs against a scratch copy (VERIF_REPO, mutant evaluation) must not overwrite the real evidence
+_SCRATCH = os.environ.get("VERIF_SCRATCH_OUT") or (None if REPO == "/repo" else "/tmp/verif-scratch-out")
+EVIDENCE_DIR = os.path.join(_SCRATCH or VERIF_DIR, "evidence")
+REPLAY_DIR = os.path.join(_SCRATCH or VERIF_DIR, "replays")
 FINDINGS_FILE = os.path.join(VERIF_DIR, "known_findings.json")
 
 
@@ -111,6 +113,8 @@ def finish(prop: str, tier: str, seed: int, stats: Stats, t0: float, rule: str, 
         "known_findings_seen": known_hits,
         "notes": jsonable(stats.notes),
     }
+    if 0 < len(stats.outcomes) <= 80:
+        coverage["outcome_classes"] = dict(sorted(stats.outcomes.items()))
     if coverage["states"] < 1:
         coverage["states"] = max(distinct, 1)
     ev = {
